@@ -40,6 +40,44 @@ CHECKS = {
              "precondition are listed in tables/assumed_preconditions.tsv and in the evidence; sites inside tokio::select! "
              "scaffolding are treated as external code; three async buf[..count] sites are audited with a structural predicate.",
         ref="DESIGN.md section 4 C14"),
+    "C18": dict(
+        technique="switch-table extraction from MIR + exhaustive evaluation over all 65536 codes",
+        text="The integer<->enum conversions (TYPE, QTYPE, CLASS, QCLASS), RData::type_code, the parse dispatch and "
+             "match_qtype/match_qclass are extracted from MIR as loop-free decision tables and evaluated by the rule engine over "
+             "their whole finite domain: to(from(c)) = c for every 16-bit code, unsupported codes take the Err arm, every "
+             "TYPE_CODE equals the IANA table (tables/iana.tsv), type_code(dispatch(t)) = t for every TYPE, and the matching table "
+             "is ANY / own type / MAILB group / own class. Exhaustive over the finite domains, hence decides the statement.",
+        note="Trusted: rustc's const evaluation and MIR construction; tables/iana.tsv (written from the IANA registry). A body "
+             "that stops being table-shaped is reported (fail closed). IXFR/AXFR/MAILA arms are recorded, not judged.",
+        ref="DESIGN.md section 4 C18"),
+    "C08": dict(
+        technique="decision-table extraction from MIR + exhaustive evaluation over all 65536 flags words + constant check + store scan",
+        text="Header::parse, Header::get_flags and the eight header_buffer peeks are extracted as decision tables and evaluated, "
+             "with contract models of the std/bitflags calls they make, for every one of the 65536 flags words: field offsets, "
+             "bit-field placement, Z-bit rejection, and write-back of every named opcode/rcode/flag to the same bits; the mask "
+             "and flag constants are compared with the RFC 1035 table; set_flags/remove_flags are shown to write only z_flags. "
+             "For a 12-byte fixed layout this enumeration is the whole statement.",
+        note="Trusted: rustc const evaluation / MIR; the modelled contracts of slice::get / index, try_into, from_be_bytes and "
+             "bitflags (rules/hdrmodel.py); tables/header.tsv. Emission order of Header::write_to is checked under C04.",
+        ref="DESIGN.md section 4 C08"),
+    "C09": dict(
+        technique="decision-table extraction + exhaustive evaluation of the OPT TTL bit layout + structural call checks",
+        text="encode_ttl, extract_rcode_from_ttl and the version extraction of OPT::parse are evaluated as tables for every "
+             "version x response code and every extended-rcode x header nibble against the RFC 6891 layout; the mask constants "
+             "are compared with tables/edns.tsv; OPT::parse is shown to read CLASS@+2 as the payload size and TTL@+4; the writers "
+             "emit header.opt_rr() exactly once and ARCOUNT adds opt.is_some(); the parser lifts the OPT record by type.",
+        note="Trusted: as C08. Does not decide behaviour with several OPT records in the input.",
+        ref="DESIGN.md section 4 C09"),
+    "C11": dict(
+        technique="table composition over the reader's image (exhaustive) + constructor scan of writer bodies",
+        text="Decides that the writer is defined and code-preserving on everything the reader can produce: RCODE/OPCODE written "
+             "back from every parsed value re-parse to the same value (16 nibbles, 4096 extended codes), the TYPE written for "
+             "whatever the parse dispatch builds is the parsed TYPE for all 65536 codes, and no writer body constructs an error "
+             "of its own (LOC's version check mirrors the parser's). One genuine defect is recorded as a known finding "
+             "(RCODE::Reserved).",
+        note="Trusted: as C18. Does not decide field-value equality of parse(write(parse(x))) (value-level); length consistency "
+             "(len() vs write_to) is checked under C04-R1.",
+        ref="DESIGN.md section 4 C11"),
 }
 
 NA = {
